@@ -89,6 +89,12 @@ class NaiveDate:
     def days(self):
         return days_from_civil(self.y, self.mo, self.d)
 
+    def debug(self, m, out):
+        render(m, self, b'%Y-%m-%d', out)
+
+    def display(self, m, out):
+        render(m, self, b'%Y-%m-%d', out)
+
     def eq(self, m, o):
         return z3.And(self.y == o.y, self.mo == o.mo, self.d == o.d)
 
